@@ -304,7 +304,7 @@ for _pid in ('C05', 'C13', 'C06'):
     if 'OtterVerif.Props.C05Maint' not in PROPS[_pid]['modules']:
         PROPS[_pid]['modules'].append('OtterVerif.Props.C05Maint')
 # size policy, timer wheel and table in one joint state (insertion with eviction)
-for _pid in ('C05', 'C13'):
+for _pid in ('C05', 'C13', 'C04'):
     if 'OtterVerif.Props.C05All' not in PROPS[_pid]['modules']:
         PROPS[_pid]['modules'].append('OtterVerif.Props.C05All')
 for _pid, _mods in PINS.items():
